@@ -11,8 +11,8 @@ Conventions
 * the tables are the regenerated `Gen.CryptTables` lists.  Lookups whose index the code masks to the array
   length (`SPtrans[b][x & 0x3f]`, `skb[b][6-bit gather]`, `cov_2char[c]` with `c` six accumulated bits,
   `shifts2[i]`, `s[S]` with `S < 32`, `bb[y]` with `y ≤ 8`) cannot panic in Go and are `getD`; lookups whose
-  index comes from the caller (`salt[0]`, `salt[1]`, `con_salt[x]`, `passwd[0]`) are `idx` and panic exactly
-  where Go does.  (`Props/C02.lean` proves the table shapes, so no `getD` default is ever taken.)
+  index comes from the caller (`salt[0]`, `salt[1]`, `con_salt[x]`, `passwd[0]` behind its length guard) are `idx`
+  and panic exactly where Go does.  (`Props/C02.lean` proves the table shapes, so no `getD` default is ever taken.)
 -/
 namespace PttVerif.C02
 open PttVerif PttVerif.Gen.CryptTables
@@ -217,6 +217,9 @@ def Fcrypt (key salt : List Nat) : M (List Nat) := cFcrypt key salt
 
 /-- `GenPasswd(passwd)` with the value `num` of `rand.Intn(65536)` as a parameter. -/
 def GenPasswdWith (num : Nat) (passwd : List Nat) : M (List Nat) := do
+  -- `if len(passwd) == 0 || passwd[0] == 0 { return &Passwd_t{}, nil }` (the length test is repo fix cf9020f;
+  -- before it `passwd[0]` panicked on the empty slice)
+  if passwd.length = 0 then pure (List.replicate ptttypePASSLEN 0) else
   let p0 ← idx passwd 0
   if p0 = 0 then pure (List.replicate ptttypePASSLEN 0) else
   let saltc := [num &&& 0x7f, (num >>> 8) &&& 0x7f]
